@@ -845,13 +845,14 @@ Proof.
     - intros y Hy. apply Hup. rewrite <- app_assoc in Hy. exact Hy. }
   unfold node_policy in Hrt.
   destruct (npow r) as [t |] eqn:N1.
-  { inversion Hrt; subst rt. apply Hup. subst t4. cbn [opt_list]. repeat (apply in_or_app; right). left. reflexivity. }
+  { inversion Hrt; subst rt. apply Hup. do 3 (apply in_or_app; right). apply in_or_app. left.
+    subst t4. try rewrite N1. left. reflexivity. }
   destruct (npsd r) as [d |] eqn:N2.
-  { inversion Hrt; subst rt. cbn [target_dbm]. apply Hup. subst t4 t5. cbn [opt_list app].
-    repeat (apply in_or_app; right). left. reflexivity. }
+  { inversion Hrt; subst rt. cbn [target_dbm]. apply Hup. do 4 (apply in_or_app; right). apply in_or_app. left.
+    subst t5. try rewrite N2. left. reflexivity. }
   destruct (npsw r) as [d |] eqn:N3.
-  { inversion Hrt; subst rt. cbn [target_dbm]. apply Hup. subst t4 t5 t6. cbn [opt_list app].
-    repeat (apply in_or_app; right). left. reflexivity. }
+  { inversion Hrt; subst rt. cbn [target_dbm]. apply Hup. do 5 (apply in_or_app; right).
+    subst t6. try rewrite N3. left. reflexivity. }
   discriminate.
 Qed.
 
